@@ -645,3 +645,7 @@ mod tests {
         assert_eq!(s("   a   b   c", 4), vec!["a", "b", "c"]);
     }
 }
+
+#[cfg(kani)]
+#[path = "/verif/kani/utils.rs"]
+mod verif_kani;
